@@ -188,7 +188,8 @@ XferAfter(a, r) ==
       [] k = "in0" ->
             LET st == StageForIn(xf) IN
             IF st \in {"din", "sin"} THEN [xf EXCEPT !.st = IF r.k = "STALL" THEN "stall" ELSE st]
-            ELSE IF Open(xf) THEN [xf EXCEPT !.st = "broken"] ELSE xf
+            ELSE xf              \* an IN while the status stage expects OUT (or nothing is in progress) is not answered
+                                 \* with data (Judge) and leaves the transfer where it is
       [] k = "out0_tok" -> [xf EXCEPT !.st = StageForOut(xf)]     \* an OUT token ends the IN data stage [8.5.3]
       [] k = "out0_data" ->
             LET st == StageForOut(xf) IN
@@ -196,7 +197,7 @@ XferAfter(a, r) ==
             ELSE IF st = "sout" THEN [xf EXCEPT !.st = IF r.k = "ACK" THEN "done"
                                                       ELSE IF r.k = "STALL" THEN "stall" ELSE "sout"]
             ELSE IF st = "dout" THEN [xf EXCEPT !.st = IF r.k = "STALL" THEN "stall" ELSE "dout"]
-            ELSE IF Open(xf) THEN [xf EXCEPT !.st = "broken"] ELSE xf
+            ELSE xf              \* likewise an OUT transaction while the status stage expects IN
       [] k = "ack" /\ ctx.ep = 0 ->
             IF xf.st = "din" THEN
                  [xf EXCEPT !.sent = xf.sent + ctx.n, !.tog = 1 - xf.tog,
